@@ -141,6 +141,11 @@ def catalogue(quick=True):
                      [block("rb", [rule(P("a", "lo"), [C("y", "s"), C("z", "n", "not"), C("y", "m", "not", "very")]),
                                    rule(P("b", "hi"), [C("z", "p"), C("y", "l", "not")]),
                                    rule(AND(P("a", "md"), P("b", "lo")), [C("y", "m"), C("z", "o", "not")], weight="1/2")])]))
+    # a Constant among the terms of an output under an integral defuzzifier: its membership is its value at every sample point
+    yc = out_y()
+    yc["terms"] = yc["terms"] + [term("floor", "Constant", "1/4")]
+    cs.append(engine("constant-under-integral", [in_a(), in_b()], [yc],
+                     [block("rb", [rule(P("a", "lo"), [C("y", "floor")]), rule(P("b", "hi"), [C("y", "s")]), rule(AND(P("a", "hi"), P("b", "lo")), [C("y", "floor"), C("y", "l")], weight="1/2")])]))
     # rule weights that are not 1 (or 0) but lie within the library's comparison tolerance of it
     near = copy.deepcopy(ts_rules)
     for r, w in zip(near, ["1023/1024", "2047/2048", "1/1024", "4095/4096", "1/2048"]):
